@@ -368,8 +368,12 @@ pub fn ring_world(r: &mut Rng, tier: Tier, o: &RingOpts) -> (WorldCfg, OracleCfg
         if let Some(t) = leave_times[i] {
             plan.push((t, PlanOp::Offline));
         }
+        let mut rejoin_keep_apps = None;
         if let Some(t) = rejoin_times[i] {
             plan.push((t, PlanOp::Online));
+            if apps.len() >= 2 && r.chance(1, 2) {
+                rejoin_keep_apps = Some(r.below(apps.len() as u64) as u8);
+            }
         }
         let single_poll_api = r.chance(1, 2);
         stations.push(StationCfg {
@@ -388,6 +392,7 @@ pub fn ring_world(r: &mut Rng, tier: Tier, o: &RingOpts) -> (WorldCfg, OracleCfg
             plan,
             apps,
             single_poll_api,
+            rejoin_keep_apps,
             tx_done: tx_done.clone(),
             rx_chunk_us,
             dup_poll_pm: if o.buggify && r.chance(1, 3) { r.range(1, 100) as u32 } else { 0 },
@@ -793,6 +798,7 @@ pub fn dp_world(r: &mut Rng, tier: Tier, o: &DpOpts) -> (WorldCfg, OracleCfg, Ve
             skew_ppm: 0,
             plan: vec![(0, PlanOp::Online)],
             single_poll_api: apps.len() == 1 && r.chance(1, 2),
+            rejoin_keep_apps: None,
             apps,
             tx_done: TxDoneCfg::Exact,
             rx_chunk_us,
@@ -1138,6 +1144,7 @@ pub fn adv_world(r: &mut Rng, tier: Tier, o: &AdvOpts) -> (WorldCfg, OracleCfg, 
         skew_ppm: 0,
         plan: vec![(0, PlanOp::Online)],
         single_poll_api: apps.len() == 1 && r.chance(1, 2),
+        rejoin_keep_apps: None,
         apps,
         tx_done: if o.hostile { r.pick(&[TxDoneCfg::Exact, TxDoneCfg::Exact, TxDoneCfg::Early]).clone() } else { TxDoneCfg::Exact },
         rx_chunk_us: 0,
@@ -1263,7 +1270,10 @@ pub fn rx_scenario(r: &mut Rng, tier: Tier, decoder: bool) -> crate::rx::RxCfg {
                 let le = if r.chance(1, 3) { *r.pick(&[0u8, 1, 2, 3, 4, 5, 11, 243, 244, 245, 246, 247, 248, 249, 250, 251, 252, 253, 254, 255]) } else { r.range(0, 30) as u8 };
                 let ler = if r.chance(3, 4) { le } else { r.byte() };
                 let mut b = vec![0x68, le, ler, if r.chance(3, 4) { 0x68 } else { r.byte() }];
-                b.extend(r.bytes(usize::from(le) + 2));
+                // (a length byte below 3 cannot even hold DA SA FC: sometimes those three bytes and a
+                // matching trailer follow anyway)
+                let body = if le < 3 && r.chance(1, 2) { 3 } else { usize::from(le) };
+                b.extend(r.bytes(body + 2));
                 if r.chance(1, 2) && b.len() > 6 {
                     let l = b.len();
                     let fcs = b[4..l - 2].iter().fold(0u8, |a, x| a.wrapping_add(*x));
@@ -1272,6 +1282,17 @@ pub fn rx_scenario(r: &mut Rng, tier: Tier, decoder: bool) -> crate::rx::RxCfg {
                 }
                 bytes = b;
                 damage = "structured".into();
+            }
+            6 if !decoder => {
+                // a short burst of junk that does not start like a telegram: it must be thrown away
+                // at once, not kept as the beginning of something
+                let n = r.range(1, 5) as usize;
+                let mut j = r.bytes(n);
+                while matches!(j[0], 0x10 | 0x68 | 0xA2 | 0xDC | 0xE5) {
+                    j[0] = j[0].wrapping_add(1);
+                }
+                bytes = j;
+                damage = "junk".into();
             }
             6 if decoder => {
                 // two telegrams back to back
@@ -1458,6 +1479,7 @@ pub fn scan_world(r: &mut Rng, tier: Tier) -> (WorldCfg, OracleCfg, Vec<Fault>) 
             skew_ppm: 0,
             plan: vec![(0, PlanOp::Online)],
             single_poll_api: apps.len() == 1 && r.chance(1, 2),
+            rejoin_keep_apps: None,
             apps,
             tx_done: TxDoneCfg::Exact,
             rx_chunk_us: 0,
@@ -1496,7 +1518,7 @@ pub fn scan_world(r: &mut Rng, tier: Tier) -> (WorldCfg, OracleCfg, Vec<Fault>) 
 /// or reply).  Singles come first (48 positions x 10 kinds), then pairs.
 fn systematic_dp_faults(idx: u64, w: &WorldCfg, random_plan: &[Fault], quiet_phase: bool) -> Vec<Fault> {
     const POS: u64 = 48;
-    const KINDS: u64 = 10;
+    const KINDS: u64 = 11;
     let nsl = w.slaves.len() as u64;
     let one = |n: u64, a: u64, out: &mut Vec<Fault>| {
         let sl = (n % nsl) as usize;
@@ -1523,6 +1545,7 @@ fn systematic_dp_faults(idx: u64, w: &WorldCfg, random_plan: &[Fault], quiet_pha
                     count: (n % 3 + 1) as u8,
                 },
             ),
+            9 => (req, FaultKind::LostWithStraySc),
             _ => {
                 if quiet_phase {
                     (req, FaultKind::RxDrop { node: 0 })
